@@ -229,9 +229,11 @@ void Interpret::interp(ASTNode& n) {
                     if (tr == PTRef_Undef)
                         notify_formatted(true, "assertion returns an unknown sort");
                     else {
-                        assertions.push(tr);
                         try {
                             main_solver->insertFormula(tr);
+                            // record the assertion only once the solver has accepted it (the indices must agree with the
+                            // solver's partition numbering used by get-interpolants)
+                            assertions.push(tr);
                             notify_success();
                         } catch (ApiException const & e) {
                             notify_formatted(true, "%s", e.what());
